@@ -72,6 +72,18 @@ theorem searchSt_is_search (P : Problem) (fuel : Nat) (st : St) (b : Node) (st' 
     (h : searchSt P fuel st = some (b, st')) : search P fuel st = .found b st'.done :=
   Lemmas.AStarSound.searchSt_found P fuel st b st' h
 
+-- non-vacuity of `searchSt_is_search` (and, through the `found` it yields, of `search_sound`): `closedList`
+example : ∃ b done, search Lemmas.AStarWitness.closedList 10 (init Lemmas.AStarWitness.closedList) = .found b done ∧
+    b.v = 4 ∧ b.g = 6 := by
+  have hs : (searchSt Lemmas.AStarWitness.closedList 10 (init Lemmas.AStarWitness.closedList)).isSome = true := by
+    decide +kernel
+  obtain ⟨⟨b, st'⟩, h⟩ := Option.isSome_iff_exists.mp hs
+  have hf := searchSt_is_search _ _ _ b st' h
+  have hc : (search Lemmas.AStarWitness.closedList 10 (init Lemmas.AStarWitness.closedList)).cost = some 6 := by
+    decide +kernel
+  rw [hf] at hc
+  exact ⟨b, st'.done, hf, (search_sound _ _ b _ hf).1, Option.some.inj hc⟩
+
 /-- **Optimality under consistency** (exact comparator, eps = 0).  `H` = the heuristic as a function
     of the state; `Legit` = any set of states closed under the successor relation that contains the
     start state (hypotheses are only needed there); `bonus v ≥ 0` = what the last hop out of `v` into
@@ -134,6 +146,20 @@ example : Lemmas.AStarWitness.lineGraph.consistent = true ∧ Lemmas.AStarWitnes
     (search Lemmas.AStarWitness.lineGraph.problem 5 (init Lemmas.AStarWitness.lineGraph.problem)).cost = some 1 := by
   decide +kernel
 
+-- non-vacuity of `graph_search_optimal` (hence of `search_optimal`, which it instantiates): on `lineGraph` all
+-- hypotheses hold jointly, the search is `found`, and every route costs at least the returned g + bonus
+example : ∃ b done, search Lemmas.AStarWitness.lineGraph.problem 5 (init Lemmas.AStarWitness.lineGraph.problem) = .found b done ∧
+    ∀ u c path, Reach Lemmas.AStarWitness.lineGraph.problem Lemmas.AStarWitness.lineGraph.tar (some u) c path →
+      Lemmas.AStarWitness.lineGraph.tar ∉ path.tail →
+      b.g + bonusOf Lemmas.AStarWitness.lineGraph.bonus b.pv ≤ c + Lemmas.AStarWitness.lineGraph.bonus u := by
+  have hc : (search Lemmas.AStarWitness.lineGraph.problem 5 (init Lemmas.AStarWitness.lineGraph.problem)).cost = some 1 := by
+    decide +kernel
+  cases h : search Lemmas.AStarWitness.lineGraph.problem 5 (init Lemmas.AStarWitness.lineGraph.problem) with
+  | found b done =>
+    exact ⟨b, done, rfl, graph_search_optimal _ (by decide +kernel) (by decide +kernel) 5 b done h⟩
+  | noPath => rw [h] at hc; cases hc
+  | outOfFuel => rw [h] at hc; cases hc
+
 /-- **The model's `cost()` is the measure the property speaks of**: for all rational points, a hop p2 → p3
     with a single heading taken after a hop p1 → p2 with a single heading costs its length plus
     segmentPenalty × (0 straight | 1 quarter turn | 2 doubling back) — `cost()`'s classification of
@@ -148,6 +174,12 @@ theorem cost_is_length_plus_bends (g : Graph) (hpen : 0 < g.segPen) (hrev : g.re
       dist + (if d2 = d1 then 0 else if d2 = d1.rev then 2 * g.segPen else g.segPen) ∧
     costPts g dist none p2 p3 = dist :=
   Lemmas.AStarCost.cost_axis_parallel g hpen hrev dist p1 p2 p3 d1 d2 h1 h2
+
+-- non-vacuity of `cost_is_length_plus_bends`: hop (0,0) → (1,0) heading E, then (1,0) → (1,2) heading S: one bend
+example : costPts { (default : Graph) with segPen := 10 } 2 (some ⟨0, 0⟩) ⟨1, 0⟩ ⟨1, 2⟩ = 2 + 10 := by
+  have := (cost_is_length_plus_bends { (default : Graph) with segPen := 10 } (by decide +kernel) rfl 2
+    ⟨0, 0⟩ ⟨1, 0⟩ ⟨1, 2⟩ .E .S (by decide +kernel) (by decide +kernel)).1
+  rw [this]; decide +kernel
 
 /-- **libavoid's estimator is not consistent with `cost()`, kind 1: the edge into a cost target.**
     Penalty 10, cost target (0,0) to be entered heading East (`costTarDirs = 2`).  At (0,1), heading
@@ -257,6 +289,16 @@ theorem heuristic_consistent_off_cost_targets (g : Graph) (hpen : 0 < g.segPen) 
     ∃ e1 e2, estimatedCost g (some last) curr = some e1 ∧ estimatedCost g (some curr) next = some e2 ∧
       e1 ≤ AdaptaVerif.Model.Bends.manhattanDist curr next + (if nd = cd then 0 else g.segPen) + e2 :=
   Lemmas.AStarEstimate.estimatedCost_consistent g hpen last curr next cd nd hcd hnd hnr hnt
+
+-- non-vacuity of `heuristic_consistent_off_cost_targets` on a graph WITH a cost target (`lineGraph`: target (2,0),
+-- cost target (1,0)): the hop (-1,0) → (-1,3) heading S taken after (-2,0) → (-1,0) heading E
+example : ∃ e1 e2, estimatedCost Lemmas.AStarWitness.lineGraph (some ⟨-2, 0⟩) ⟨-1, 0⟩ = some e1 ∧
+    estimatedCost Lemmas.AStarWitness.lineGraph (some ⟨-1, 0⟩) ⟨-1, 3⟩ = some e2 ∧
+    e1 ≤ AdaptaVerif.Model.Bends.manhattanDist ⟨-1, 0⟩ ⟨-1, 3⟩ +
+      (if AdaptaVerif.Spec.OrthPath.Dir.S = AdaptaVerif.Spec.OrthPath.Dir.E then 0
+        else Lemmas.AStarWitness.lineGraph.segPen) + e2 :=
+  heuristic_consistent_off_cost_targets Lemmas.AStarWitness.lineGraph (by decide +kernel)
+    ⟨-2, 0⟩ ⟨-1, 0⟩ ⟨-1, 3⟩ .E .S (by decide +kernel) (by decide +kernel) (by decide) (by decide +kernel)
 
 /-! ### tie to the source: kernels regenerated from makepath.cpp / graph.cpp on every run -/
 
